@@ -23,6 +23,11 @@ CHECKS = {
          "Every random draw of a transition (momentum, slice variate, direction per doubling, merge uniform at every internal tree node, accept uniform per doubling) is a choice from a small alphabet that contains the exact decision thresholds (n''/(n'+n''), min(1,n'/n)) and their neighbours; all choice vectors with <= 0-2 (quick) / 0-3 (thorough) deviations from the defaults are executed per base configuration (7-9 targets x 2-3 starts x 5-6 step sizes, tree depths 0..8+, divergent and U-turning trajectories; bound chosen per configuration so that the enumeration completes). The hook trace of each execution (every leaf with position, momentum, joint, n', s'; every merge; every doubling) is walked by an iterative Algorithm 6: slice test, divergence test (1000), subtree bookkeeping, candidate selection with the drawn uniforms, U-turn termination, top-level adoption, next state bit-identical to the selected trajectory point, acceptance statistic over the last doubling; each leaf must be one f64 leapfrog step from the trajectory's end.",
          "Conventions Algorithm 6 leaves open are not pinned (direction half, drawing the accept uniform when s'=0, slice parametrisation). U-turn products inside the rounding margin make a transition 'ambiguous' (followed, not judged; counted, guard <= 2 %).",
          "DESIGN.md §3 C03"),
+ "C04": ("E3/E1", "model_checking",
+         "exploration of ALL histories of run(n_collect,n_discard) calls on one real NUTS chain with a recurrence oracle evaluated on the adaptation state recorded after every transition",
+         "All sequences of <= 2 (quick) / 3 (thorough) run calls over {(1,0),(2,1),(3,2),(2,5),(1,12)} plus long warm-ups (0..2000) for 3 targets x requested acceptance {0.6,0.8,0.95} x seeds, f64 and f32 scalars. After EVERY transition the recorded (m, eps, eps_bar, H-bar, mu) must follow Nesterov dual averaging (gamma 0.05, t0 10, kappa 0.75) from the previously observed state and the transition's own alpha/n_alpha while m <= n_discard, and afterwards eps == eps_bar bit for bit and never change; the trajectory must use the current step size; the counter persists across runs; eps0 must equal one of the two published variants of the doubling/halving heuristic computed from the same start and initial momentum, mu = ln(10 eps0) in the first run.",
+         "The clause 'realised acceptance close to requested' is statistical: fixed enumerated grid (Gaussians D=1..5, delta {0.6,0.8,0.9}, seeds 0..7, warm-up 1000) with a +-0.15 band, declared non-generalising. Histories in which one transition needs more than 2^13 leapfrog steps (resumed adaptation driving eps to ~1e-8) are cut off and reported as caps.",
+         "DESIGN.md §3 C04"),
  "C05": ("E1/E4", "model_checking",
          "explicit-state construction of the exact one-sweep kernel by enumerating EVERY outcome sequence of the real step() (scripted conditional) + list-model check of the call log for every dimension 1..64",
          "(a) A recording conditional logs (index, copy of the state it was given) and returns a fresh unique value; for every dimension 1..64, 1-3 steps, f64 (incl. NaN/-0/inf states), f32, i32 and 2-4 chains through GibbsSampler::run the log must equal the list model (each coordinate once, in order, freshest state, nothing else changed). (b) For finite joints (all 255 weight tables over {0..3} on {0,1}^2, structured tables with zeros on {0,1}^3, {0,1,2}^2, thorough also {0,1}^4, {0,1,2}^3) every outcome sequence of one sweep from every positive-probability state is executed on the real chain with its exact probability, giving the exact kernel P; pi P = pi is checked to 1e-12.",
